@@ -30,7 +30,7 @@ def quick_configs(rng):
                  defines=["1" * 14, "0" * 14, "10100100100111", "01011011011000", "1" * 14, "0" * 14]),
         G.Config(3, L=3, cap=4, head=True, manual=True, payload="d12", ctx="ref", inj=[1, 0, 2, 1],
                  defines=["11110111101111", "1" * 14, "1" * 14, "1" * 14]),
-        G.Config(2, L=2, cap=6, head=False, payload="none", ctx="ref"),          # task capacity above the state count
+        G.Config(2, L=2, cap=6, head=True, manual=True, payload="none", ctx="ref"),   # task capacity above the state count; payload-free plan with a visible root
         G.Config(7, L=8, cap=2, head=True, payload="u8", ctx="value",
                  defines=[defines_row(random.Random(7 + k), "mix") for k in range(7)] + ["1" * 14]),
     ]
@@ -258,6 +258,17 @@ def run_cases(exe, case_lines_list, timeout=900):
         rc_i, out_i = -999, partial.split("\n")
     rc_m, out_m = C.run_lines([C.DRIVER, "machine"], lines, timeout=timeout)
     return rc_i, split_cases(out_i), rc_m, split_cases(out_m)
+
+
+def run_impl(exe, case, timeout=60):
+    """implementation only, one case: its output lines (None on crash / timeout)"""
+    import subprocess
+    try:
+        rc, out = C.run_lines([exe], list(case), timeout=timeout)
+    except subprocess.TimeoutExpired:
+        return None
+    r = split_cases(out)
+    return r[0] if rc == 0 and r else None
 
 
 # projections: which lines / fields a property speaks about -----------------------------------------
@@ -523,3 +534,37 @@ def plan_veto_case(rng, cfg, name):
             if rng.random() < 0.3:
                 beh.append("beh i0 op%d occ0 %s s255 S : %s" % (k, m, rng.choice(["planAppend %d %d" % (x, rng.randrange(cfg.n)), "changeTo %d" % rng.randrange(cfg.n), "succeed %d" % x])))
     return lines + beh + ["op " + o for o in ops]
+
+
+def reactivation_case(rng, cfg, name):
+    """C09/C17: a plan is used in one activation, the machine is deactivated (exit / destroy+construct / load) and
+    activated again, then statuses are reported with and without new tasks: planSucceeded()/planFailed() must not
+    be delivered on the strength of a task of the previous activation."""
+    lines = ["case %s" % name, cfg.cfg_line()]
+    ops = ["construct 0 %d %d" % (rng.randrange(2), rng.choice([0, 255, 165]))] + (["enter 0"] if cfg.manual else [])
+    for round_ in range(rng.randint(2, 4)):
+        for _ in range(rng.randint(0, 2)):
+            o, d = rng.randrange(cfg.n), rng.randrange(cfg.n)
+            if cfg.payload != "none" and rng.random() < 0.4:
+                ops.append("planAppend 0 %d %d %d" % (o, d, rng.randrange(200)))
+            else:
+                ops.append("planAppend 0 %d %d" % (o, d))
+        for _ in range(rng.randint(0, 2)):
+            r = rng.random()
+            k = rng.randrange(cfg.n)
+            if r < 0.5: ops.append("succeed 0 %d" % k)
+            elif r < 0.8: ops.append("fail 0 %d" % k)
+            else: ops.append("changeTo 0 %d" % k)
+            ops.append("update 0" if rng.random() < 0.7 else "react 0")
+        r = rng.random()
+        if cfg.manual and r < 0.6:
+            ops += ["exit 0", "enter 0"]
+        elif r < 0.8 and cfg.serial:
+            ops += ["save 0", "load 0 0"]
+        else:
+            ops += ["destroy 0", "construct 0 %d %d" % (rng.randrange(2), rng.choice([0, 255, 90]))] + (["enter 0"] if cfg.manual else [])
+        if rng.random() < 0.7:
+            # report on whichever state is active now (initial state after enter / construct)
+            ops.append("%s 0 %d" % (rng.choice(["succeed", "fail"]), 0 if rng.random() < 0.7 else rng.randrange(cfg.n)))
+        ops.append("update 0" if rng.random() < 0.7 else "react 0")
+    return lines + ["op " + o for o in ops]
